@@ -10,7 +10,7 @@ from typing import TYPE_CHECKING, Any, Callable, List, Sequence, Set, Union
 from .._string_utils import quoted_options_list
 from ..exc import SchemaError, SchemaValidationError
 from .introspection import is_introspection_type
-from .scalars import SPECIFIED_SCALAR_TYPES
+from .scalars import MAX_INT, MIN_INT, SPECIFIED_SCALAR_TYPES, Int
 from .types import (
     Argument,
     Directive,
@@ -18,6 +18,7 @@ from .types import (
     EnumValue,
     InputObjectType,
     InterfaceType,
+    ListType,
     NonNullType,
     ObjectType,
     UnionType,
@@ -77,6 +78,67 @@ def validate_schema(
         raise SchemaValidationError(validator.errors)
 
     return True
+
+
+def _default_value_error(type_: Any, value: Any) -> "Union[str, None]":
+    """
+    Check a declared default value (the Python value handed to resolvers as
+    is) against the type of its position.
+
+    Only what every position promises is checked: no null under a non-null
+    type, a list under a list type, a 32-bit integer under Int, one of the
+    enum's own values under an enum, a mapping under an input object (its
+    values checked field by field). Other scalars are left to their
+    implementation.
+    """
+    if isinstance(type_, NonNullType):
+        if value is None:
+            return "null is not a valid value for non-null type %s" % type_
+        return _default_value_error(type_.type, value)
+
+    if value is None:
+        return None
+
+    if isinstance(type_, ListType):
+        if not isinstance(value, (list, tuple)):
+            return "expected a list for type %s but got %r" % (type_, value)
+        for index, item in enumerate(value):
+            err = _default_value_error(type_.type, item)
+            if err is not None:
+                return "%s at index %d" % (err, index)
+        return None
+
+    if type_ is Int:
+        if isinstance(value, bool) or not isinstance(value, int):
+            return "expected an integer for type Int but got %r" % (value,)
+        if not (MIN_INT <= value <= MAX_INT):
+            return "Int cannot represent non 32-bit signed integer: %r" % value
+        return None
+
+    if isinstance(type_, EnumType):
+        try:
+            type_.get_name(value)
+        except Exception:
+            return "%r is not a value of enum %s" % (value, type_.name)
+        return None
+
+    if isinstance(type_, InputObjectType):
+        if not isinstance(value, dict):
+            return "expected a mapping for type %s but got %r" % (
+                type_.name,
+                value,
+            )
+        # Only the values found under a field's python name are checked: the
+        # shape of the mapping (missing / extra keys) is the author's choice.
+        for field in type_.fields:
+            if field.python_name in value:
+                err = _default_value_error(
+                    field.type, value[field.python_name]
+                )
+                if err is not None:
+                    return "%s at %s" % (err, field.python_name)
+
+    return None
 
 
 def _is_valid_name(name: str) -> bool:
@@ -207,6 +269,13 @@ class SchemaValidator:
                         'Expected input type for argument "%s" on directive "@%s" but '
                         'got "%s"' % (arg.name, directive.name, arg.type)
                     )
+                elif arg.has_default_value:
+                    err = _default_value_error(arg.type, arg.default_value)
+                    if err is not None:
+                        self.add_error(
+                            'Invalid default value for argument "%s" on directive '
+                            '"@%s": %s' % (arg.name, directive.name, err)
+                        )
 
                 argnames.add(arg.name)
 
@@ -253,6 +322,13 @@ class SchemaValidator:
                         'Expected input type for argument "%s" on "%s" but got "%s"'
                         % (arg.name, path, arg.type)
                     )
+                elif arg.has_default_value:
+                    err = _default_value_error(arg.type, arg.default_value)
+                    if err is not None:
+                        self.add_error(
+                            'Invalid default value for argument "%s" on "%s": %s'
+                            % (arg.name, path, err)
+                        )
 
                 argnames.add(arg.name)
 
@@ -551,5 +627,12 @@ class SchemaValidator:
                     'Expected input type for field "%s" on "%s" but got "%s"'
                     % (field.name, input_object, field.type)
                 )
+            elif field.has_default_value:
+                err = _default_value_error(field.type, field.default_value)
+                if err is not None:
+                    self.add_error(
+                        'Invalid default value for field "%s" on "%s": %s'
+                        % (field.name, input_object, err)
+                    )
 
             fieldnames.add(field.name)
